@@ -182,23 +182,47 @@ def sc_json(sc):
 # ------------------------------------------------------------------ whole functions
 
 
-def py_spec(fw, ew, sc, regs, pos):
-    """delete the methods whose value condition (Python isinstance on every argument) fails, then the documented
-    rule with the library's own type order for "more specific" (a dependent type is below its bound)"""
+def py_spec(fw, ew, sc, regs, pos, kw=()):
+    """delete the methods whose value condition (read off the declarations: instance of the declared bound that
+    satisfies the declared condition, on every supplied argument, keyword-only ones included) fails, then the
+    documented rule with the library's own type order for "more specific" (a dependent type is below its bound)"""
     from ovld.mro import Order, typeorder
 
     args = [fw.vals[i] for i in pos]
+    kwv = [(n, fw.vals[i]) for n, i in kw]
+    slots = list(range(len(args))) + [("k", n) for n, _ in kwv]
+    supplied = args + [v for _, v in kwv]
+
+    def param_at(d, slot):
+        if isinstance(slot, int):
+            ps = [p for p in d["params"] if p["kind"] != "ko"]
+            return ps[slot] if slot < len(ps) else None
+        for p in d["params"]:
+            if p["kind"] == "ko" and p["name"] == slot[1]:
+                return p
+        return None
+
+    def shape_ok(d):
+        ps = [p for p in d["params"] if p["kind"] != "ko"]
+        # the supplied positionals must cover the required ones and not exceed the declared ones; every supplied
+        # keyword must be a keyword-only parameter of the method and every required keyword-only one be supplied
+        if not (len([p for p in ps if p["req"]]) <= len(args) <= len(ps)):
+            return False
+        if any(param_at(d, ("k", n)) is None for n, _ in kwv):
+            return False
+        given = {n for n, _ in kwv}
+        return all(p["name"] in given for p in d["params"] if p["kind"] == "ko" and p["req"])
+
     app = []
     py_spec.mismatch = []
     for di in regs:
         d = sc["defs"][di]
-        ps = [p for p in d["params"] if p["kind"] != "ko"]
-        # the supplied positionals must cover the required ones and not exceed the declared ones
-        if not (len([p for p in ps if p["req"]]) <= len(args) <= len(ps)):
+        if not shape_ok(d):
             continue
-        live = [safe_isinstance(v, fw.glb[f"T_{d['id']}_{p['name']}"]) for v, p in zip(args, ps)]
+        ps = [param_at(d, sl) for sl in slots]
+        live = [safe_isinstance(v, fw.glb[f"T_{d['id']}_{p['name']}"]) for v, p in zip(supplied, ps)]
         try:
-            decl = [bool(desc_holds(ew, p["ty"], v)) for v, p in zip(args, ps)]
+            decl = [bool(desc_holds(ew, p["ty"], v)) for v, p in zip(supplied, ps)]
         except Exception:
             decl = live  # a declared condition that raises on this value (outside its bound): no verdict
         if decl != live:
@@ -206,13 +230,13 @@ def py_spec(fw, ew, sc, regs, pos):
         if all(decl):
             app.append(d)
 
-    def ty(d, j):
-        return fw.glb[f"T_{d['id']}_{d['params'][j]['name']}"]
+    def ty(d, sl):
+        return fw.glb[f"T_{d['id']}_{param_at(d, sl)['name']}"]
 
-    def order(m, m2, j):
+    def order(m, m2, sl):
         # two value-dependent declarations whose declared bounds are different plain classes are ordered the way
         # those bounds are (read off the declarations, not off the type objects built for them)
-        d1, d2 = m["params"][j]["ty"], m2["params"][j]["ty"]
+        d1, d2 = param_at(m, sl)["ty"], param_at(m2, sl)["ty"]
         if d1[0] in ("lit", "fdep", "prod") and d2[0] in ("lit", "fdep", "prod"):
             b1, b2 = d1[-1], d2[-1]
             if b1[0] in ("cls", "pred") and b2[0] in ("cls", "pred") and b1 != b2:
@@ -223,35 +247,37 @@ def py_spec(fw, ew, sc, regs, pos):
                     ew.w.pred_calls[:] = saved
                 if o in (Order.LESS, Order.MORE):
                     return o
-        return typeorder(ty(m, j), ty(m2, j))
+        return typeorder(ty(m, sl), ty(m2, sl))
 
     def beats(m, m2):
         if m["prio"] != m2["prio"]:
             return m["prio"] > m2["prio"]
-        os_ = [order(m, m2, j) for j in range(len(args))]
+        os_ = [order(m, m2, sl) for sl in slots]
         if all(o in (Order.LESS, Order.SAME) for o in os_) and any(o is Order.LESS for o in os_):
             return True
-        if all(o is Order.SAME for o in os_) and all(ty(m, j) == ty(m2, j) for j in range(len(args))):
-            # identical signatures: the most recently registered wins
+        same_sig = len(m["params"]) == len(m2["params"]) and all(
+            a["name"] == b["name"] and a["kind"] == b["kind"] and a["req"] == b["req"]
+            and fw.glb[f"T_{m['id']}_{a['name']}"] == fw.glb[f"T_{m2['id']}_{b['name']}"] for a, b in zip(m["params"], m2["params"]))
+        if all(o is Order.SAME for o in os_) and same_sig:
+            # identical signatures (every declared parameter, supplied or not): the most recently registered wins
             return regs.index(m["id"]) > regs.index(m2["id"])
         return False
 
     winners = [m for m in app if all(m2 is m or beats(m, m2) for m2 in app)]
     # comparable: every two applicable methods are ordered (or the same) in every position (else: finding D1)
     comparable = all(
-        order(m, m2, j) is not Order.NONE and order(m2, m, j) is not Order.NONE
-        for m in app for m2 in app if m is not m2 for j in range(len(args))
+        order(m, m2, sl) is not Order.NONE and order(m2, m, sl) is not Order.NONE
+        for m in app for m2 in app if m is not m2 for sl in slots
     )
     py_spec.comparable = comparable
     # value-dependent methods that are candidates at the type level but whose condition fails on these values
     from ovld.mro import subclasscheck as _sc
 
     def type_level(d):
-        ps = [p for p in d["params"] if p["kind"] != "ko"]
-        if not (len([p for p in ps if p["req"]]) <= len(args) <= len(ps)):
+        if not shape_ok(d):
             return False
         try:
-            return all(_sc(type(v), fw.glb[f"T_{d['id']}_{p['name']}"]) for v, p in zip(args, ps))
+            return all(_sc(type(v), ty(d, sl)) for v, sl in zip(supplied, slots))
         except Exception:
             return False
 
@@ -351,7 +377,7 @@ def worker_f(payload):
                     wit = {"kind": "fn-dep", "world": w.desc, "scenario": sc, "op_index": j}
                     o1["viol"].append({"law": "method entered with a value its annotation excludes", "method": mid, "params": bad, **wit})
             # C10 / C11: delete the methods whose condition fails, then the documented rule
-            want, napp = py_spec(fw, ew, sc, regs, op[1])
+            want, napp = py_spec(fw, ew, sc, regs, op[1], op[2])
             for mid, names, live, decl in py_spec.mismatch:
                 orc("C10")["viol"].append({"law": "isinstance on the annotation built for a declaration differs from: instance of the declared bound that satisfies the declared condition",
                                            "method": mid, "params": names, "isinstance": live, "declared": decl,
